@@ -283,6 +283,14 @@ def ens_fmr_entry(I, env, res):
     if len(rec) > 1:
         return z3.BoolVal(False)
     isdir = ISDIR(sub)
+    seen1 = env["__locals"].get("seen")
+    seen1 = seen1.t if isinstance(seen1, ZVal) else None
+    if seen1 is None:
+        return z3.BoolVal(False)
+    if not rec:
+        # a name is claimed (so that a later module of the same stem is skipped) only by an entry that is
+        # searched: a directory that is not a package, or any skipped entry, leaves `seen` as it was
+        unchanged = seen1 == env["seen0"]
     if rec:
         target_ok = z3.Implies(isdir, z3.And(is_pkg, rec[0][1].t == z3.Concat(env["module"].t, z3.StringVal("."), name)))
         return z3.And(z3.Not(skipped_name), target_ok)
@@ -292,7 +300,7 @@ def ens_fmr_entry(I, env, res):
         v = g.get("flag_" + k)
         if v is not None:
             filt = z3.Or(filt, v)
-    return z3.Implies(z3.And(isdir, z3.Not(skipped_name), z3.Not(filt)), z3.Not(is_pkg))
+    return z3.And(unchanged, z3.Implies(z3.And(isdir, z3.Not(skipped_name), z3.Not(filt)), z3.Not(is_pkg)))
 
 
 def flag_contract(key):
